@@ -3,6 +3,7 @@ import itertools
 
 from ..core import Case, hx
 from .. import gen
+from ..gen import NOCASE as gen_NOCASE
 from ..gen import Opt, schema_lines, LIST, MULTI, TITLE, KEYSTRVAL, COMMENTS
 
 THEOREMS = ["C16_dup_complete", "C16_dup_order", "C16_late_instance", "C16_late_default", "C16_sibling_frame",
@@ -52,17 +53,22 @@ OPS_CTX = [
     "PB %c " + hx(b'outer2 q { v = 2 inner j { v = 3 name = k } }\nouter r { v = 4 }\n'),
     "VF %c " + hx("outer|inner|name") + " v",
     "PB %c " + hx(b'outer2 q2 { inner j2 { name = m } tags = { t } }\n'),
+    # titles in another letter case: by-title lookup and removal follow the section option's own flag, which is the
+    # declared one in every context, whatever flags the context (or an earlier context from the same arrays) was created with
+    "RT %c " + hx("outer") + " " + hx("A"),
+    "GS %c " + hx("outer=B"),
+    "AT %c " + hx("outer") + " " + hx("A"),
 ]
-FOCUS = [0, 1, 11, 12, 13, 14, 9, 8, 15, 16, 17, 18]
+FOCUS = [0, 1, 11, 12, 13, 14, 9, 8, 15, 16, 17, 18, 19, 20, 21]
 
 
-def mk(cid, seq):
+def mk(cid, seq, nocase=False):
     """seq: list of (participant, opindex); participants 0 and 1 are two contexts from the same arrays"""
-    lines = schema_lines(SCHEMA) + ["XP 0 %d 1" % COMMENTS]
+    lines = schema_lines(SCHEMA) + ["XP 0 %d 1" % (COMMENTS | (gen_NOCASE if nocase else 0))]
     for part, oi in seq:
         lines.append(OPS_CTX[oi].replace("%c", str(part)))
     lines += ["D 0", "D 1", "PR 0", "PR 1", "F 0", "F 1"]
-    return Case(cid, lines, {"seq": seq})
+    return Case(cid, lines, {"seq": seq, "nocase": nocase})
 
 
 def generate(rng, tier):
@@ -82,6 +88,11 @@ def generate(rng, tier):
     for s in solos:
         cases.append(mk("solo%d" % n, [(0, oi) for oi in s]))
         n += 1
+    # the same under a case-insensitive context, for the sequences that look titles up in another letter case
+    ncsolos = [f for f in solos if any(oi in (19, 20, 21) for oi in f)]
+    for s in ncsolos:
+        cases.append(mk("solo%d" % n, [(0, oi) for oi in s], nocase=True))
+        n += 1
     # interleavings of two solo sequences
     for _ in range(900 if tier == "quick" else 30000):
         a = rng.choice(solos)
@@ -93,7 +104,8 @@ def generate(rng, tier):
         ia = iter(a)
         ib = iter(b)
         seq = [(p, next(ia) if p == 0 else next(ib)) for p in order]
-        c = mk("mix%d" % n, seq)
+        nc = a in ncsolos and b in ncsolos and rng.random() < 0.5
+        c = mk("mix%d" % n, seq, nocase=nc)
         c.meta["a"], c.meta["b"] = tuple(a), tuple(b)
         cases.append(c)
         n += 1
@@ -128,11 +140,12 @@ def oracle(case, il, ctx):
         return "malformed output"
     seq = case.meta["seq"]
     if "a" not in case.meta:
-        SOLO[tuple(oi for _p, oi in seq)] = ds[0]
-        if ds[1] != SOLO.get((), ds[1]) and () in SOLO:
+        SOLO[(case.meta.get("nocase", False),) + tuple(oi for _p, oi in seq)] = ds[0]
+        if ds[1] != SOLO.get((case.meta.get("nocase", False),), ds[1]) and (case.meta.get("nocase", False),) in SOLO:
             return "operations on one context changed the other (created from the same declarations)"
         return None
-    sa, sb = SOLO.get(case.meta["a"]), SOLO.get(case.meta["b"])
+    nc = case.meta.get("nocase", False)
+    sa, sb = SOLO.get((nc,) + tuple(case.meta["a"])), SOLO.get((nc,) + tuple(case.meta["b"]))
     if sa is not None and ds[0] != sa:
         return "context 0 after the interleaving differs from its solo run"
     if sb is not None and ds[1] != sb:
